@@ -77,7 +77,7 @@ def gen(rng, i, tier):
     props = rand_props(rng, d)
     pack = {"inside": rng.sample(["a.png", "B.JPG", "c.jpeg", "d.gif", "e.bmp", "f.txt", "z.PNG", "a_png", "thumbsgif", "oldbmp"], rng.choice([0, 0, 1, 2, 4])),
             "beside": rng.sample(["pack.png", "pack.jpg", "pack.bmp", "PACK.PNG", "packx.png", "other.png", "pack-png", "packjpg"], rng.choice([0, 1, 2]))}
-    return {"fs": rng.choice(["native", "mem"]), "dir": c19.enc_tree(d), "props": props, "pack": pack, "pack_spelling": rng.choice([None, None, "sep", "dot"])}
+    return {"fs": rng.choice(["native", "mem"]), "dir": c19.enc_tree(d), "props": props, "pack": pack, "pack_spelling": rng.choice([None, None, "sep", "dot"]), "dir_spelling": rng.choice([None, None, "sep"])}
 
 
 def build_tree(c):
@@ -104,11 +104,12 @@ def impl(c):
         song = t.root + t.sep + "song"
         res = {"listing": t.listdir(song), "sub": (t.listdir(song + t.sep + "sub") if t.isdir(song + t.sep + "sub") else None),
                "pack_listing": t.listdir(t.root), "beside_listing": t.listdir(t.base)}
-        a = Assets(song, filesystem=t.fs)
+        song_sp = song + (t.sep if c.get("dir_spelling") == "sep" else "")       # the simfile directory spelled with a trailing separator
+        a = Assets(song_sp, filesystem=t.fs)
         first = {k: t.rel(getattr(a, ATTR[k])) for k in KINDS}
         second = {k: t.rel(getattr(a, ATTR[k])) for k in KINDS}
         res["assets"], res["again"] = first, second
-        a2 = SimfileDirectory(song, filesystem=t.fs).assets()
+        a2 = SimfileDirectory(song_sp, filesystem=t.fs).assets()
         res["via_directory"] = {k: t.rel(getattr(a2, ATTR[k])) for k in KINDS}
         exists = {}
         for k, v in first.items():
